@@ -80,7 +80,18 @@ func withFdBudget(k int, fn func()) error {
 }
 
 // census returns the open descriptors.
-func census() map[int]string { return sysx.FdCensus() }
+// census is the descriptor table without the descriptors the Go runtime itself opens for a moment on its own threads
+// (it re-reads /sys/devices/system/cpu/online and cgroup files under /proc and /sys now and then): they appear and
+// disappear independently of anything the library does and would be attributed to whatever call is being measured.
+func census() map[int]string {
+	m := sysx.FdCensus()
+	for fd, target := range m {
+		if strings.HasPrefix(target, "/sys/") || strings.HasPrefix(target, "/proc/") {
+			delete(m, fd)
+		}
+	}
+	return m
+}
 
 // settledCensus first lets the collector finalize net.Conns leaked by EARLIER cases, so that their late release is
 // not attributed to the case being measured.
